@@ -22,6 +22,8 @@ import re
 import shutil
 import vlib
 import synthmods
+import liars
+import c02_gens
 import gen_mixer_voice
 
 LEVEL = "proof"
@@ -152,6 +154,11 @@ def fuzz_files(ck, maxsize, nsynth):
     # format-aware layer for DBM (chunk order, envelopes, per-instrument loops) and IT with compressed samples
     # whose streams are cut short
     syn += synthmods.write_set_extra(random.Random(ck.seed * 104729 + 11), d, max(8, nsynth // 2))
+    # declared-size liar archives (LZX, zip, ARC, LHA, MMCMP), chunk-length liars, container header cuts,
+    # MED synth jump tables: the writers of the C02 search, here under the sanitizers
+    syn += liars.write_set(random.Random(ck.seed * 31337 + 17), d, max(16, nsynth // 4))
+    syn += synthmods.write_set_extra(random.Random(ck.seed * 7561 + 19), d, max(12, nsynth // 4), gens=c02_gens.GENS, prefix="syz")
+    syn += c02_gens.chunk_liars_from_corpus(random.Random(ck.seed * 7561 + 23), sorted(vlib.corpus_files()), d, max(8, nsynth // 8))
     k = max(1, len(files) // (2 * max(1, len(syn))))
     return files + syn * k
 
